@@ -11,6 +11,7 @@ HERE = os.path.dirname(os.path.abspath(__file__)); sys.path.insert(0, HERE)
 from common import build_module, case_hash
 
 HEADER = ["from dataclasses import dataclass, field", "from typing import *", "from apischema import discriminator, alias",
+          "from apischema.metadata import flatten, properties",
           "from apischema.tagged_unions import Tagged, TaggedUnion", ""]
 
 
@@ -33,8 +34,20 @@ def gen_union(rnd, i):
             tag = rnd.choice([cname.lower(), f"t{k}"])
             if aliased: fl.append(f"    {key}_: Literal[{tag!r}] = field(default={tag!r}, metadata=alias({key!r}))")
             else: fl.append(f"    {key}: Literal[{tag!r}] = {tag!r}")
+        extra_body, extra_ctor = {}, ""
+        if not has_field and rnd.random() < 0.35:
+            # an alternative that aggregates properties (a flattened class, a pattern-properties mapping): the discriminator is
+            # not one of its fields, and must not be reported as an unexpected property
+            if rnd.random() < 0.5:
+                lines += ["@dataclass", f"class I{i}_{k}:", "    p: int = 0", "    q: str = ''", ""]
+                fl.append(f"    inner: I{i}_{k} = field(default_factory=I{i}_{k}, metadata=flatten)")
+                extra_body, extra_ctor = {"p": 3}, f"dict(inner=I{i}_{k}(p=3))"
+            else:
+                fl.append("    pat: Dict[str, int] = field(default_factory=dict, metadata=properties(pattern=r'^p_'))")
+                extra_body, extra_ctor = {"p_a": 1}, "dict(pat={'p_a': 1})"
         lines += fl + [""]
-        alts.append({"cls": cname, "tag": tag, "has_field": has_field, "aliased": aliased, "fields": fields, "aliases": al})
+        alts.append({"cls": cname, "tag": tag, "has_field": has_field, "aliased": aliased, "fields": fields, "aliases": al,
+                     "extra_body": extra_body, "extra_ctor": extra_ctor})
     mode = rnd.choice(["default", "default", "explicit", "partial"])
     mapping = None
     if mode == "explicit": mapping = {f"m{k}": a["cls"] for k, a in enumerate(alts)}
@@ -50,10 +63,28 @@ def gen_union(rnd, i):
     return {"name": uname, "key": key, "alts": alts, "mode": mode, "src": lines}
 
 
+def gen_inherited(rnd, i):
+    """`@discriminator(key)` on a parent dataclass: the subclasses are the alternatives, tagged by their names (or by an
+    explicit mapping)"""
+    n = rnd.randint(2, 3); key = rnd.choice(["type", "kind"]); pname = f"P{i}"
+    explicit = False          # (a mapping would have to name classes defined after the decorated parent)
+    alts, sub = [], []
+    for k in range(n):
+        cname = f"P{i}_{k}"
+        fields = [("x", "int", 1)] + ([("y", "float", 1.5)] if rnd.random() < 0.5 else [])
+        fl = ["@dataclass", f"class {cname}({pname}):"] + [f"    {fn}: {ft} = {fv!r}" for fn, ft, fv in fields]
+        sub += fl + [""]
+        alts.append({"cls": cname, "tag": (f"m{k}" if explicit else cname), "has_field": False, "aliased": False, "fields": fields, "aliases": {},
+                     "extra_body": {}, "extra_ctor": ""})
+    deco = f"@discriminator({key!r}" + (", {" + ", ".join(f"{a['tag']!r}: {a['cls']!r}" for a in alts) + "}" if explicit else "") + ")"
+    lines = [deco, "@dataclass", f"class {pname}:", "    base: int = 0", ""] + sub
+    return {"name": pname, "key": key, "alts": alts, "mode": "inherited" + ("-explicit" if explicit else ""), "src": lines}
+
+
 def run_discr(seed, budget, want=("dispatch", "roundtrip", "tagged", "purity")):
     from apischema import deserialize, serialize, ValidationError
     rnd = random.Random(seed * 13 + 1); n = 80 * budget
-    unions = [gen_union(rnd, i) for i in range(n)]
+    unions = [gen_union(rnd, i) if rnd.random() < 0.8 else gen_inherited(rnd, i) for i in range(n)]
     src = list(HEADER)
     for u in unions: src += u["src"] + [""]
     src += ["class TU(TaggedUnion):", "    a: Tagged[int]", "    b: Tagged[str]", ""]
@@ -73,7 +104,8 @@ def run_discr(seed, budget, want=("dispatch", "roundtrip", "tagged", "purity")):
         U = ns[u["name"]]
         for a in u["alts"]:
             cls = ns[a["cls"]]
-            body = {a["aliases"].get(fn, fn): fv for fn, _, fv in a["fields"]}
+            body = {a["aliases"].get(fn, fn): fv for fn, _, fv in a["fields"]}; body.update(a["extra_body"])
+            if a["extra_body"]: hist["alternative-aggregates-properties"] += 1
             datum = dict(body); datum[u["key"]] = a["tag"]
             items = list(datum.items()); rnd.shuffle(items); datum = dict(items)
             evaluations += 1; distinct.add(case_hash(u["src"], a["cls"]))
@@ -97,8 +129,17 @@ def run_discr(seed, budget, want=("dispatch", "roundtrip", "tagged", "purity")):
                 ill = dict(snap); ill[a["aliases"].get("x", "x")] = "nope"
                 r1 = out(lambda: deserialize(U, ill)); r2 = out(lambda: deserialize(cls, ill if a["has_field"] else {k: v for k, v in ill.items() if k != u["key"]}))
                 if r1 != r2: fail("discriminator-dispatch-differs-from-the-alternative-alone", u, datum=ill, got=r1, alternative=r2, alt=a["cls"])
+            if "coerce" in want:
+                # coercion only widens: what the strict run accepts is accepted, with the same result; a numeric string
+                # where the alternative expects an integer is converted
+                hist["coerce-runs"] += 1
+                c = out(lambda: deserialize(U, copy.deepcopy(snap), coerce=True))
+                if got[0] == "ok" and c != got: fail("strictly-accepted-but-rejected-under-coercion" if c[0] != "ok" else "coercion-changes-an-accepted-value", u, datum=snap, strict=got, coerced=c)
+                sx = dict(snap); kx = a["aliases"].get("x", "x"); sx[kx] = "1"
+                c2 = out(lambda: deserialize(U, sx, coerce=True))
+                if got[0] == "ok" and c2 != got: fail("numeric-string-not-coerced-in-a-discriminated-alternative", u, datum=sx, strict=got, coerced=c2)
             if "roundtrip" in want:
-                v = cls(**{fn: fv for fn, _, fv in a["fields"]})          # the value is built directly: the round trip starts from it
+                v = cls(**{fn: fv for fn, _, fv in a["fields"]}, **(eval(a["extra_ctor"], ns) if a["extra_ctor"] else {}))   # the value is built directly: the round trip starts from it
                 s = out(lambda: serialize(U, v)); s0 = out(lambda: serialize(cls, v))
                 if s[0] != "ok" or s0[0] != "ok": fail("serialization-of-a-discriminated-value-raises", u, value=v, got=s)
                 else:
